@@ -179,6 +179,20 @@ impl Db {
     }
 
     /// (re)create and fill every table of the spec; `rows` overrides the spec's own rows when given
+    /// an untyped auxiliary table (materialised intermediate result)
+    pub fn load_raw(&self, name: &str, cols: &[String], rows: &[Vec<Cell>]) -> rusqlite::Result<()> {
+        self.conn.execute(&format!("DROP TABLE IF EXISTS {}", quote_ident(name)), [])?;
+        let c: Vec<String> = cols.iter().map(|c| quote_ident(c)).collect();
+        self.conn.execute(&format!("CREATE TABLE {} ({})", quote_ident(name), c.join(", ")), [])?;
+        let ph: Vec<&str> = cols.iter().map(|_| "?").collect();
+        let mut st = self.conn.prepare(&format!("INSERT INTO {} VALUES ({})", quote_ident(name), ph.join(", ")))?;
+        for r in rows {
+            let vals: Vec<SV> = r.iter().map(cell_to_sv).collect();
+            st.execute(rusqlite::params_from_iter(vals.iter()))?;
+        }
+        Ok(())
+    }
+
     pub fn load(&self, spec: &DbSpec, rows: Option<&Vec<Vec<Vec<Cell>>>>) -> rusqlite::Result<()> {
         let own;
         let rows = match rows {
